@@ -22,7 +22,7 @@ def main(argv):
         rep.replay_only = args.replay
         tinputs = inputs
     else:
-        inputs = rb.domain_inputs(args.tier, args.seed, "XRBSNKL")
+        inputs = rb.domain_inputs(args.tier, args.seed, "XRBSNKLV")
         tinputs = tracefam.trace_inputs(args.tier, args.seed)
     d = rb.workdir(PROP)
     try:
